@@ -40,14 +40,33 @@ def _tpcis():
     return out
 
 
-def _scfs():
+def _scf_octet_defined(raw):
+    """SCF octets the specification defines: T | algorithm (0 auth, 1 encryption) | S | service (0 data, 2/3 sync)."""
+    return (raw >> 4) & 0b111 in (0, 1) and raw & 0b111 in (0, 2, 3)
+
+
+def _scfs(ctx=None):
+    """Every SCF octet goes through the octet path SecurityControlField.from_knx(octet): it must come back as the same octet
+    from to_knx() (this octet is what the MAC is computed over) or be refused; defined octets that are refused are recorded."""
     out = []
     for raw in range(256):
         try:
             scf = SecurityControlField.from_knx(raw)
         except ValueError:
+            if ctx is not None:
+                ctx.count("scf_octets_refused")
+                if _scf_octet_defined(raw):
+                    ctx.count("scf_defined_octet_refused")
             continue
-        if scf.to_knx()[0] == raw:
+        back = scf.to_knx()[0]
+        if ctx is not None:
+            ctx.ev()
+            ctx.count("scf_octets_accepted")
+            if back != raw:
+                ctx.violation("scf-octet-reserialises-differently",
+                              {"octet": raw, "reserialised": back, "parsed": str(scf)},
+                              f"SecurityControlField.from_knx({raw:#04x}).to_knx() gives {back:#04x}: the MAC of a received frame would be computed over another SCF")
+        if (raw >> 4) & 0b111 in (0, 1):
             out.append((raw, scf))
     return out
 
@@ -135,6 +154,47 @@ def _case(ctx, spec):
                     "reference": expected[:40], "xknx": None if got is None else bytes(got)[:40]})
 
 
+def _wire_scf(ctx, rng, scfs):
+    """Reference-built complete frames for every SCF octet, parsed by the real frame parser (the octet path of a receiver):
+    the frame must re-serialise to the same octets and SecureData.get_plain_apdu with the *parsed* SCF must return the APDU."""
+    from xknx.cemi import CEMIFrame
+    from xknx.telegram.apci import SecureAPDU
+
+    for raw_scf, _ in scfs:
+        for group in (True, False):
+            key = rng.randbytes(16)
+            apdu = bytes((0, 0x80)) + rng.randbytes(rng.choice((0, 1, 3, 14)))
+            sa, da, seq = rng.randrange(1, 0x10000), rng.randrange(1, 0x10000), rng.randrange(1 << 48)
+            frame = ref.secure_ldata(key, apdu, scf=raw_scf, seq=seq, sa=sa, da=da, group=group)
+            ctx.ev()
+            wit = {"scf_octet": raw_scf, "key": key, "apdu": apdu, "sa": sa, "da": da, "seq": seq, "group": group, "frame": frame}
+            try:
+                cemi = CEMIFrame.from_knx(frame)
+            except Exception as exc:  # noqa: BLE001 - a refusal (e.g. reserved service) is allowed; recorded
+                ctx.count(f"wire_frame_refused_{type(exc).__name__}")
+                continue
+            ctx.count("wire_frames_parsed")
+            payload = cemi.data.payload
+            if not isinstance(payload, SecureAPDU):
+                ctx.violation("secure-frame-not-parsed-as-secure-apdu", wit, "reference frame not parsed as SecureAPDU")
+                continue
+            ctx.distinct(("wire-scf", raw_scf, group))
+            if bytes(cemi.to_knx()) != frame:
+                ctx.violation("secure-frame-reserialises-differently", dict(wit, reserialised=bytes(cemi.to_knx())),
+                              f"frame with SCF {raw_scf:#04x} parses and re-serialises to other octets")
+            try:
+                plain = payload.secured_data.get_plain_apdu(
+                    key=key, scf=payload.scf, address_fields_raw=frame[4:8], address_type=cemi.data.address_type,
+                    frame_format=cemi.data.flags.frame_format, tpci=cemi.data.tpci)
+            except DataSecureError:
+                ctx.violation(f"reference-frame-rejected-scf-from-octet-{'enc' if ref.scf_algorithm(raw_scf) else 'auth'}", wit,
+                              f"frame produced by the reference with SCF {raw_scf:#04x} fails MAC verification once the SCF went through from_knx")
+                continue
+            if ctx.check(bytes(plain) == apdu, "reference-frame-decrypts-differently-scf-from-octet", dict(wit, plain=bytes(plain)),
+                         "get_plain_apdu returned other octets"):
+                ctx.count("wire_frames_accepted")
+
+
 def _frame_case(ctx, rng):
     """Whole frame produced by DataSecure.outgoing_cemi vs the reference frame builder."""
     from vlib.ds_harness import group_payload
@@ -186,8 +246,10 @@ def run(ctx):
     ctx.count("reference_vectors_ok", 2)
     ctx.require("reference_vectors_ok", "encode_enc", "encode_auth", "decode_enc", "decode_auth", "encode_equal", "decode_equal",
                 "tpci_zero", "tpci_nonzero", "frames_compared")
-    scfs = _scfs()
+    scfs = _scfs(ctx)
     ctx.extra["scf_values"] = len(scfs)
+    ctx.require("scf_octets_accepted", "scf_octets_refused", "wire_frames_parsed")
+    _wire_scf(ctx, rng, scfs)
     tpcis = _tpcis()
     zero_tp = tpcis[:3]
     idx = 0
